@@ -219,6 +219,35 @@ Theorem block_never_creates_value : forall l b acc b' acc',
 Proof. exact block_conserves. Qed.
 Print Assumptions block_never_creates_value.
 
+(* 12c. Block-shaped cases of the correspondence check (several messages on one StateDB, only Finalize in
+   between): the boolean evaluated on every observed case implies the hypotheses of 12b for the messages that
+   were applied before it in the same block ... *)
+Theorem block_case_hypotheses_checked : forall c, blk_hyps_ok c = true ->
+  Forall wf_txn (c_blk c) /\ nonneg (c_blkpre c).
+Proof. exact blk_hyps_ok_sound. Qed.
+Print Assumptions block_case_hypotheses_checked.
+
+(* ... so for every observed block the model's run (which [blk_ok] compares with the balances the real
+   StateDB shows in front of the next message) moves the sum by exactly the totals and never up except by
+   rent refunds and inbound values. *)
+Theorem observed_block_never_creates_value : forall c b' acc',
+  blk_hyps_ok c = true -> run_block (c_blk c) (c_blkpre c) tot0 = (b', acc') ->
+  nonneg b'
+  /\ bsum b' = bsum (c_blkpre c) - tot_charge acc' - tot_etx acc' - tot_burn acc' + tot_rent acc' + tot_inbound acc'
+  /\ bsum b' <= bsum (c_blkpre c) - tot_charge acc' - tot_etx acc' + tot_rent acc' + tot_inbound acc'
+  /\ 0 <= tot_charge acc' /\ 0 <= tot_etx acc' /\ 0 <= tot_burn acc' /\ 0 <= tot_inbound acc'.
+Proof. exact checked_block_conserves. Qed.
+Print Assumptions observed_block_never_creates_value.
+
+(* 12d. What Finalize destroyed stays destroyed: an account a transaction leaves marked self-destructed holds 0
+   afterwards, whatever it received after its SELFDESTRUCT; the next message of the block starts from exactly
+   these balances with nobody marked ([run_tx]), so re-creating the address (transfer, CALL with value, CREATE2
+   redeploy, inbound ETX, beneficiary) starts it from 0. *)
+Theorem destroyed_account_restarts_empty : forall e m o top s s' used failed a,
+  apply_tx e m o top s = (s', RDone used failed) -> mem a (sui s') = true -> bget a (bal s') = 0.
+Proof. exact destroyed_account_restarts_empty. Qed.
+Print Assumptions destroyed_account_restarts_empty.
+
 (* 13. The correspondence check evaluates, on every observed case, a boolean that implies the hypotheses
    used above (non-negative value/gas/price/pre-balances, 0 <= gas left <= limit, inbound ETX price 0). *)
 Theorem case_hypotheses_checked : forall c, hyps_ok c = true ->
@@ -266,6 +295,22 @@ Example block_nonvacuous :
                   (ACall 0%N 3%N 900 2%N false [] false) in
   exists b' acc', run_block [t1; t2] nv_pre tot0 = (b', acc')
     /\ bsum b' = bsum nv_pre - 240000 - 46 - 0 + 50000 + 900 /\ tot_inbound acc' = 900 /\ tot_rent acc' = 50000.
+Proof. eexists. eexists. split; [vm_compute; reflexivity|]. repeat split; reflexivity. Qed.
+
+(* the third blind-change class: message 1 has contract 3 self-destruct (to account 4) and then pays it 5000,
+   which Finalize burns; message 2 of the same block transfers 7 to the address: it holds 7, not 5007, and the
+   5000 are in the block's burn total *)
+Example block_resurrection_nonvacuous :
+  let e := mkEnv 2 25000 false 6000000 30000000 0%N in
+  let t1 := mkTxn false e (mkMsg 1%N 0 100000 3 false KNormal false 0 0 0 0) (mkOpq true 20000 0 false)
+              (ACall 1%N 2%N 0 2%N false
+                 [ACall 2%N 3%N 0 2%N false [ASelfDestruct 3%N 4%N] false; ACall 2%N 3%N 5000 2%N false [] false] false) in
+  let t2 := mkTxn false e (mkMsg 1%N 7 100000 3 false KNormal false 0 0 0 0) (mkOpq true 50000 0 false)
+              (ACall 1%N 3%N 7 2%N true [] false) in
+  let pre := [(1%N, 1000000); (2%N, 90000); (3%N, 300); (4%N, 1)] in
+  exists b' acc', run_block [t1; t2] pre tot0 = (b', acc')
+    /\ bget 3%N b' = 7 /\ tot_burn acc' = 5000 /\ tot_rent acc' = 50000
+    /\ bsum b' = bsum pre - tot_charge acc' - 5000 + 50000.
 Proof. eexists. eexists. split; [vm_compute; reflexivity|]. repeat split; reflexivity. Qed.
 
 (* the blind-change class: code entered by DELEGATECALL (same for CALLCODE: [checked] = true) debits the
